@@ -586,6 +586,24 @@ pub fn run(tier: &str) -> i32 {
             "max_depth": r.max_depth, "complete_reached": r.complete_reached, "live_walks": live, "growth_rounds": growth,
             "secs": t.elapsed().as_secs_f64()}));
     }
+    // E1 on live replicas with writer growth, hash requests and replica reopen: every prefix is
+    // observed (call result + info/has/get of the replica against the replica model)
+    let states = FpSet::default();
+    let outcomes = FpSet::default();
+    let mut e1_json = vec![];
+    for (name, prefix, depth, growth) in [
+        ("replica of 2 growing to 5", shape(2, 0, None), if quick { 5 } else { 7 }, 5u64),
+        ("replica of 4 (batch) growing to 6", shape(4, 1, None), if quick { 4 } else { 6 }, 6u64),
+    ] {
+        let af = move |m: &crate::explore::SysModel, _d: usize| super::faults::replica_ops_growth(m, growth);
+        let e = crate::explore::E1 { prop: "C03", depth, with_replica: true, prefix: prefix.clone(), alphabet: &af, threads: nthreads(), cache: CacheCfg::Off, altered: None };
+        let mk = || ObsVisitor::new("C03", &rep, &stats, &states, &outcomes, false);
+        let (vs, leaves) = e.run(&mk);
+        drop(vs);
+        traces += leaves;
+        e1_json.push(json!({"family": name, "depth": depth, "complete_histories": leaves}));
+    }
+    total_states += states.len();
     let coverage = json!({
         "states": total_states,
         "transitions": stats.get("transitions") + stats.get("live_steps"),
@@ -594,6 +612,7 @@ pub fn run(tier: &str) -> i32 {
         "distinct_nontrivial": gstates.len(),
         "rule": "E2: BFS over exact replica storage images per writer log; from every state every well-formed request (upgrade to every length, block, hash of every full tree node, seeks per the shape's seek mode) is proved by the real writer and applied by the real replica, reopening in between; all reachable states are visited (saturation). Oracle: proof returned (none iff block cleared), accepted, replica info/has/get equal the replica model. Live walks: request sequences without reopen from every k-th state. Growth rounds re-saturate from all earlier states after the writer appended.",
         "shapes": shape_json,
+        "e1_replica_families_with_growth_and_reopen": e1_json,
         "live_walks": stats.get("live_walks"),
         "outcomes_by_request_kind": stats.counters_json(),
         "samples": [
